@@ -400,7 +400,8 @@ func (s *fsm13) handleReceivedFlight( //nolint:cyclop
 		return s.handlePreviousFlightRetransmit(ctx, conn, received.RecordsToACK, ackResult)
 	}
 
-	if s.state.IsClient && s.currentFlight.IsLastSendFlight() && !received.IsRetransmit {
+	if s.state.IsClient && s.currentFlight.IsLastSendFlight() && !received.IsRetransmit &&
+		hasRecordOfEpoch(received.RecordsToACK, s.state.LocalEpoch()) {
 		// The server only sends a new handshake message after it has processed
 		// the client's final flight, so that flight is implicitly acknowledged
 		// even if the ACK itself was lost (RFC 9147 Section 7.1). Hand the
@@ -444,6 +445,18 @@ func (s *fsm13) handleReceivedFlight( //nolint:cyclop
 	}
 
 	return transition, nil
+}
+
+// hasRecordOfEpoch reports whether a handshake record of at least epoch was
+// received, i.e. one that was authenticated under that epoch's keys.
+func hasRecordOfEpoch(records []protocol.RecordNumber, epoch uint16) bool {
+	for _, record := range records {
+		if record.Epoch >= uint64(epoch) {
+			return true
+		}
+	}
+
+	return false
 }
 
 func (s *fsm13) handlePreviousFlightRetransmit(
